@@ -473,8 +473,8 @@ func (r *Runtime) typedArrayProto_copyWithin(call FunctionCall) Value {
 			if maxCount := int(l) - to; count > maxCount {
 				count = maxCount
 			}
-			ta.viewedArrayBuf.ensureNotDetached(true)
 			if count > 0 {
+				ta.viewedArrayBuf.ensureNotDetached(true)
 				copy(data[(offset+to)*elemSize:(offset+to+count)*elemSize], data[(offset+from)*elemSize:(offset+from+count)*elemSize])
 			}
 		}
